@@ -1,5 +1,6 @@
 import Verif.Drv.Runner
 import Verif.Model.KV
+import Verif.Model.KVFault
 
 namespace Verif.Drv
 open Verif.KV
@@ -39,7 +40,27 @@ def kvModel {σ} (init : σ) (step : σ → Op → σ × Out) : Model where
       let (s', o) := step s op
       (s', fmtKVOut o)
 
+/-- histories in which the physical database may fail (`Model/KVFault.lean`) -/
+def parseKVFOp : List String → Option FOp
+  | ["failcreate", b] => do some (.failCreate (← nat? b))
+  | ["failflush"] => some .failFlush
+  | ws => (parseKVOp ws).map .op
+
+def kvModelF {σ} (init : σ) (step : σ → FOp → σ × Out) : Model where
+  σ := σ
+  init := fun _ => some init
+  step := fun s ws =>
+    match parseKVFOp ws with
+    | none => (s, "bad-op")
+    | some op =>
+      let (s', o) := step s op
+      (s', fmtKVOut o)
+
 def kvModels : List (String × Model) := [
+  ("fspec", kvModelF Spec.init Spec.stepF),
+  ("fmem", kvModelF MemDB.init MemDB.stepF),
+  ("fcachemem", kvModelF (CacheDB.init MemDB.init) (CacheDB.stepNF memBackendF)),
+  ("fcachespec", kvModelF (CacheDB.init Spec.init) (CacheDB.stepNF specBackendF)),
   ("spec", kvModel Spec.init Spec.step),
   ("mem", kvModel MemDB.init MemDB.step),
   ("cachemem", kvModel (CacheDB.init MemDB.init) (CacheDB.stepN memBackend)),
